@@ -200,8 +200,9 @@ enum LoadObs {
     Err(String),
     Panic,
 }
-fn coq_obs(o: &LoadObs) -> Option<String> {
+fn coq_obs(o: &LoadObs, saved: Option<&[TableObs]>) -> Option<String> {
     Some(match o {
+        LoadObs::Ok(ts) if saved.map(|sv| identical(sv, ts)).unwrap_or(false) => "ObsSaved".to_string(),
         LoadObs::Ok(ts) => {
             let mut v = Vec::new();
             for t in ts {
@@ -212,6 +213,19 @@ fn coq_obs(o: &LoadObs) -> Option<String> {
         LoadObs::Err(_) => "ObsErr".into(),
         LoadObs::Panic => "ObsPanic".into(),
     })
+}
+/// same tables (by name), same columns, same row SEQUENCES, floats by bits
+fn identical(a: &[TableObs], b: &[TableObs]) -> bool {
+    a.len() == b.len()
+        && a.iter().all(|t| {
+            b.iter().any(|u| {
+                u.name == t.name
+                    && u.cols.len() == t.cols.len()
+                    && u.cols.iter().zip(t.cols.iter()).all(|(x, y)| x.0 == y.0 && x.1 == y.1 && x.2 == y.2)
+                    && u.rows.len() == t.rows.len()
+                    && u.rows.iter().zip(t.rows.iter()).all(|(x, y)| x.len() == y.len() && x.iter().zip(y.iter()).all(|(a, b)| strict_key(a) == strict_key(b)))
+            })
+        })
 }
 fn real_split(text: &str) -> Vec<String> {
     vibesql_storage::parse_sql_statements(text).expect("parse_sql_statements never fails")
@@ -227,6 +241,17 @@ fn real_load(path: &std::path::Path) -> LoadObs {
         Err(_) => LoadObs::Panic,
     }
 }
+const HMASK: u128 = (1u128 << 60) - 1;
+fn hstep(h: u128, c: u128) -> u128 {
+    (65599 * h + c + 1) & HMASK
+}
+fn hash_str(h: u128, s: &str) -> u128 {
+    s.chars().fold(h, |h, c| hstep(h, c as u128))
+}
+fn hash_strs(v: &[String]) -> u128 {
+    v.iter().fold(7u128, |h, s| hstep(hash_str(h, s), 1114112))
+}
+#[allow(dead_code)]
 fn strs_coq(v: &[String]) -> String {
     if v.is_empty() {
         "(@nil str)".to_string()
@@ -345,10 +370,17 @@ fn gen_type(r: &mut Rng, bad: Bad) -> DataType {
 
 fn gen_f64_ok(r: &mut Rng) -> f64 {
     match r.below(5) {
-        0 => f64::from_bits(*r.pick(F64_EDGE)),
+        0 => if r.chance(1, 2) { f64::from_bits(*r.pick(F64_EDGE)) } else { f64::from_bits(*r.pick(&F64_EDGE[4..13])) },
         1 => (r.below(100000) as f64) / 100.0,
         2 => r.below(1 << 53) as f64,
-        3 => f64::from_bits(r.next() % 0x7FF0000000000000),
+        3 => {
+            if r.chance(1, 6) {
+                f64::from_bits(r.next() % 0x7FF0000000000000)
+            } else {
+                // moderate exponents: short decimal expansions
+                f64::from_bits(((1023 - 20 + r.below(70)) << 52) | (r.next() & 0x000FFFFFFFFFFFFF))
+            }
+        }
         _ => (r.below(1000) as f64) * 0.125,
     }
 }
@@ -522,7 +554,11 @@ fn gen_db(r: &mut Rng) -> GenDb {
                     ty = gen_type(r, Bad::None);
                 }
             }
-            cols.push((cname, ty, r.chance(2, 3)));
+            let mut nullable = r.chance(2, 3);
+            if matches!(ty, DataType::Smallint) && this_bad != Bad::Smallint && bad != Bad::Mixed {
+                nullable = true; // only NULLs can be stored in it inside the vocabulary
+            }
+            cols.push((cname, ty, nullable));
         }
         // create: SQL text for half of the tables, the catalog API for the others
         let via_sql = r.chance(1, 2);
@@ -596,7 +632,17 @@ fn sql_type(t: &DataType) -> String {
 // ---------------------------------------------------------------------------------------------
 // the property's own oracle and the narrow defect classifiers
 // ---------------------------------------------------------------------------------------------
+/// value identity for the property's oracle: floats by bits, except that all NaNs of a variant are one
+/// value (SqlValue's own equality says NaN == NaN; a NaN payload is not table content)
 fn val_key(v: &SqlValue) -> String {
+    match v {
+        SqlValue::Numeric(f) | SqlValue::Double(f) if f.is_nan() => format!("{:?}#NaN", std::mem::discriminant(v)),
+        SqlValue::Float(f) | SqlValue::Real(f) if f.is_nan() => format!("{:?}#NaN", std::mem::discriminant(v)),
+        _ => strict_key(v),
+    }
+}
+/// strict identity (floats by bits), used to decide that a reloaded database IS the saved one
+fn strict_key(v: &SqlValue) -> String {
     match v {
         SqlValue::Numeric(f) | SqlValue::Double(f) => format!("{:?}#{:016x}", std::mem::discriminant(v), f.to_bits()),
         SqlValue::Float(f) | SqlValue::Real(f) => format!("{:?}#{:08x}", std::mem::discriminant(v), f.to_bits()),
@@ -820,9 +866,9 @@ fn main() {
     let mut sum = Summary::default();
     sum.nontrivial_rule = "database cases with at least one stored non-NULL value (canonical text = the dump body); text and lexer cases with non-empty text".to_string();
     let mut log = CaseLog::new(&args);
-    let n_db: u64 = if args.thorough { 12000 } else { 1600 };
-    let n_rand_text: u64 = if args.thorough { 6000 } else { 700 };
-    let n_lex: u64 = if args.thorough { 8000 } else { 900 };
+    let n_db: u64 = if args.thorough { 8000 } else { 1000 };
+    let n_rand_text: u64 = if args.thorough { 4000 } else { 400 };
+    let n_lex: u64 = if args.thorough { 6000 } else { 600 };
     let tmp = args.out.join("dumps");
     std::fs::create_dir_all(&tmp).expect("harness tmp dir");
     let want = |id: u64| args.only.as_ref().map(|o| o.contains(&id)).unwrap_or(true);
@@ -898,7 +944,7 @@ fn main() {
         }
         ft.add_statements(&split);
         let tabs: Option<Vec<String>> = orig.iter().map(coq_table).collect();
-        match (tabs, coq_obs(&obs)) {
+        match (tabs, coq_obs(&obs, Some(&orig))) {
             (Some(tabs), Some(o)) => {
                 dcases.push(format!(
                     "mk_dcase {} {} {} {} {} {} {}",
@@ -906,8 +952,8 @@ fn main() {
                     ft.coq(),
                     cps(&generated),
                     if tabs.is_empty() { "(@nil table)".to_string() } else { coq_list(&tabs) },
-                    cps(&text),
-                    strs_coq(&split),
+                    hash_str(7, &text),
+                    hash_strs(&split),
                     o
                 ));
                 sum.model_cases += 1;
@@ -952,9 +998,9 @@ fn main() {
             "load": match &obs { LoadObs::Ok(_) => "ok".to_string(), LoadObs::Err(e) => format!("err: {}", e.replace('\n', " | ")), LoadObs::Panic => "panic".into() }}));
         let mut ft = FTab::default();
         ft.add_statements(&split);
-        match coq_obs(&obs) {
+        match coq_obs(&obs, None) {
             Some(o) => {
-                tcases.push(format!("mk_tcase {} {} {} {} {} {}", tid, ft.coq(), cps(&tc.text), strs_coq(&split), o, tc.must_decide));
+                tcases.push(format!("mk_tcase {} {} {} {} {} {}", tid, ft.coq(), cps(&tc.text), hash_strs(&split), o, tc.must_decide));
                 sum.model_cases += 1;
             }
             None => {
@@ -1014,7 +1060,7 @@ fn main() {
 
     // ---------------- shards
     let header = "From Coq Require Import List ZArith Bool.\nFrom VibeSQL Require Import Value.SqlValue Value.Dec Lex.DumpLex Codec.SqlLiteral Codec.SqlLoad Run.C19Run.\nImport ListNotations.\nOpen Scope Z_scope.\n";
-    let nshards = 16usize;
+    let nshards = if args.thorough { 64usize } else { 16usize };
     let mut shards: Vec<(Vec<&String>, Vec<&String>, Vec<&String>)> = (0..nshards).map(|_| (Vec::new(), Vec::new(), Vec::new())).collect();
     for (k, c) in dcases.iter().enumerate() {
         shards[k % nshards].0.push(c);
